@@ -1,4 +1,218 @@
-import Nstd.Hash.Model
+import Nstd.Hash.LemmasStep
+/-
+  Property C02: HashMap / HashSet / PoolMap behave as insertion-ordered unique-key tables.
+
+  Model: `Nstd/Hash/Model.lean` (bucket chains stored per bucket, push-front; items remember their
+  cell; free list and 4-item blocks; order list of item ids; lazily allocated bucket array).
+  Specification: `Nstd/Hash/Spec.lean` (association list, positions as iterators).
+  All theorems quantify over the container kind, EVERY hash function `h : Nat → Nat` (hence every
+  collision pattern, including all keys in one bucket), every capacity (the `construct t cap` op takes
+  any number; `0` becomes `1` as in the code) and every op list.
+-/
 namespace Nstd.Hash
-theorem placeholder : (Table.fresh 3).order = [] := rfl
+open Table
+
+/-! ### invariant -/
+
+/-- the invariant holds initially (two default-constructed tables) -/
+theorem inv_init (h : Nat → Nat) : SInv h init := init_inv h
+
+/-- explicitly constructed tables of ANY capacity satisfy the invariant (capacity 0 becomes 1) -/
+theorem inv_construct (h : Nat → Nat) (c0 c1 : Nat) : SInv h ⟨Table.construct c0, Table.construct c1⟩ :=
+  ⟨construct_inv h c0, construct_inv h c1⟩
+
+/-- `Inv` is preserved by every op list from every state satisfying it -/
+theorem inv_run (kind : Kind) (h : Nat → Nat) (ops : List Op) (s s' : State) (outs : List Out)
+    (hs : SInv h s) (hr : run kind h s ops = some (s', outs)) : SInv h s' := by
+  induction ops generalizing s outs with
+  | nil => simp only [run, Option.some.injEq, Prod.mk.injEq] at hr; exact hr.1 ▸ hs
+  | cons op ops ih =>
+    simp only [run] at hr
+    cases hst : step kind h s op with
+    | none => rw [hst] at hr; cases hr
+    | some r =>
+      obtain ⟨s1, o⟩ := r
+      rw [hst] at hr
+      simp only at hr
+      cases hrr : run kind h s1 ops with
+      | none => rw [hrr] at hr; cases hr
+      | some r2 =>
+        obtain ⟨s2, os⟩ := r2
+        rw [hrr] at hr
+        simp only [Option.some.injEq, Prod.mk.injEq] at hr
+        have h1 := (step_refines kind h s op hs).2 s1 o hst
+        obtain ⟨e1, _⟩ := hr
+        subst e1
+        exact ih s1 os h1 hrr
+
+/-- what `Inv` says about the buckets of every reachable table: once the bucket array exists, the chain of
+    bucket `b` holds exactly the live items whose key hashes to `b` (mod capacity), each once -/
+theorem chains_partition (kind : Kind) (h : Nat → Nat) (ops : List Op) (s' : State) (outs : List Out)
+    (hr : run kind h init ops = some (s', outs)) (t : Bool) (ha : (s'.get t).allocated = true) (b id : Nat) :
+    (id ∈ (s'.get t).data b ↔
+      (id ∈ (s'.get t).order ∧ h ((s'.get t).items id).key % (s'.get t).cap = b)) ∧
+    ((s'.get t).data b).Nodup ∧ 0 < (s'.get t).cap ∧ (s'.get t).size = (s'.get t).order.length := by
+  have hi := (inv_run kind h ops init s' outs (init_inv h) hr).get t
+  refine ⟨?_, hi.chain_nodup ha b, hi.cap_pos, hi.size_eq⟩
+  rw [hi.chain_iff ha]
+  constructor
+  · intro ⟨h1, h2⟩; exact ⟨h1, by rw [← hi.cell_eq id h1]; exact h2⟩
+  · intro ⟨h1, h2⟩; exact ⟨h1, by rw [hi.cell_eq id h1]; exact h2⟩
+
+/-- no key is stored twice, and no item is both free and live, in every reachable table -/
+theorem unique_keys (kind : Kind) (h : Nat → Nat) (ops : List Op) (s' : State) (outs : List Out)
+    (hr : run kind h init ops = some (s', outs)) (t : Bool) :
+    (Spec.keys (s'.get t).iterate).Nodup ∧ (∀ id ∈ (s'.get t).free, id ∉ (s'.get t).order) := by
+  have hi := (inv_run kind h ops init s' outs (init_inv h) hr).get t
+  exact ⟨by rw [Table.keys_iterate]; exact hi.keys_nodup, hi.free_disj⟩
+
+/-- `find` under the invariant, for every hash function: it returns the live item with that key, `end()` iff there is none -/
+theorem find_correct (h : Nat → Nat) (t : Table) (hi : t.Inv h) (k : Nat) :
+    (∀ id, t.find h k = some id ↔ (id ∈ t.order ∧ (t.items id).key = k)) ∧
+    (t.find h k = none ↔ k ∉ Spec.keys t.iterate) := by
+  refine ⟨fun id => hi.find_some_iff k id, ?_⟩
+  rw [hi.mem_keys_iff k]
+  cases t.find h k <;> simp
+
+/-! ### refinement -/
+
+/-- from every state satisfying the invariant, every op list yields exactly the results (returned iterator positions,
+    returned values, find/contains/size/isEmpty/iteration/front/back/== answers) and the final iteration lists the
+    association-list specification yields; an op list is rejected (`none`) by the model iff the specification rejects it -/
+theorem refines_from (kind : Kind) (h : Nat → Nat) (ops : List Op) (s : State) (hs : SInv h s) :
+    (run kind h s ops).map (fun r => (abs r.1, r.2)) = Spec.run kind (abs s) ops := by
+  induction ops generalizing s with
+  | nil => rfl
+  | cons op ops ih =>
+    have hst := step_refines kind h s op hs
+    simp only [run, Spec.run]
+    cases hm : step kind h s op with
+    | none =>
+      rw [hm] at hst
+      simp only [Option.map_none] at hst
+      rw [← hst.1]
+      rfl
+    | some r =>
+      obtain ⟨s1, o⟩ := r
+      rw [hm] at hst
+      simp only [Option.map_some] at hst
+      rw [← hst.1]
+      simp only
+      have := ih s1 (hst.2 s1 o rfl)
+      rw [← this]
+      cases run kind h s1 ops with
+      | none => rfl
+      | some r2 => rfl
+
+/-- C02, main statement: for EVERY hash function, every container kind and every op list (which may construct the two
+    tables with any capacities at any time) the model started with two default-constructed tables agrees with the
+    insertion-ordered association-list specification on all results and on the iteration lists -/
+theorem refines (kind : Kind) (h : Nat → Nat) (ops : List Op) :
+    (run kind h init ops).map (fun r => (abs r.1, r.2)) = Spec.run kind Spec.init ops := by
+  rw [← abs_init]
+  exact refines_from kind h ops init (init_inv h)
+
+/-- the same with the capacities made explicit: EVERY pair of capacities -/
+theorem refines_every_capacity (kind : Kind) (h : Nat → Nat) (c0 c1 : Nat) (ops : List Op) :
+    (run kind h ⟨Table.construct c0, Table.construct c1⟩ ops).map (fun r => (abs r.1, r.2))
+      = Spec.run kind Spec.init ops :=
+  refines_from kind h ops _ (inv_construct h c0 c1)
+
+/-- … in particular when ALL keys collide in one bucket (constant hash function) and with capacity 1 -/
+theorem refines_all_collide (kind : Kind) (c : Nat) (ops : List Op) :
+    (run kind (fun _ => c) ⟨Table.construct 1, Table.construct 1⟩ ops).map (fun r => (abs r.1, r.2))
+      = Spec.run kind Spec.init ops :=
+  refines_every_capacity kind (fun _ => c) 1 1 ops
+
+/-- capacity and hash function are unobservable: two runs with different hash functions and capacities
+    give the same results -/
+theorem hash_and_capacity_unobservable (kind : Kind) (h h' : Nat → Nat) (c0 c1 c0' c1' : Nat) (ops : List Op) :
+    (run kind h ⟨Table.construct c0, Table.construct c1⟩ ops).map (fun r => (abs r.1, r.2))
+      = (run kind h' ⟨Table.construct c0', Table.construct c1'⟩ ops).map (fun r => (abs r.1, r.2)) := by
+  rw [refines_every_capacity, refines_every_capacity]
+
+/-! ### inserting a key that is already present -/
+
+/-- HashMap: the entry keeps its position (the key list is unchanged), the value is replaced, the returned
+    iterator designates the existing entry.  HashSet / PoolMap: the table is untouched. -/
+theorem insert_existing_keeps_pos (kind : Kind) (h : Nat → Nat) (t : Table) (hi : t.Inv h) (pos k v : Nat)
+    (hk : k ∈ Spec.keys t.iterate) :
+    let r := t.insert kind h pos k v
+    r.1.order = t.order ∧
+    Spec.keys r.1.iterate = Spec.keys t.iterate ∧
+    Spec.lookup k r.1.iterate = some (posOf r.2 t.order, if kind = Kind.map then v else ((t.items r.2).value)) ∧
+    (∃ old, Spec.lookup k t.iterate = some (posOf r.2 t.order, old)) ∧
+    (kind = Kind.map → r.1.iterate = Spec.setValue t.iterate k v) ∧
+    (kind ≠ Kind.map → r.1 = t) := by
+  have hsome := (hi.mem_keys_iff k).1 hk
+  cases hf : t.find h k with
+  | none => rw [hf] at hsome; cases hsome
+  | some id =>
+    have hm := (hi.find_some_iff k id).1 hf
+    have hl := hi.lookup_iterate k
+    rw [hf] at hl
+    simp only [Option.map_some] at hl
+    simp only [Table.insert, hf]
+    by_cases hkind : kind = Kind.map
+    · simp only [hkind, if_true]
+      have hi' := hi.set_value id v
+      have hf' : ({ t with items := upd t.items id { t.items id with value := v } } : Table).find h k = some id := by
+        apply (hi'.find_some_iff k id).2
+        exact ⟨hm.1, by simp [upd, hm.2]⟩
+      have hl' := hi'.lookup_iterate k
+      rw [hf'] at hl'
+      simp only [Option.map_some] at hl'
+      refine ⟨by first | trivial | rfl, ?_, ?_, ⟨_, hl⟩, ?_, ?_⟩
+      · rw [Table.keys_iterate, Table.keys_iterate]
+        apply List.map_congr_left
+        intro j _
+        by_cases e : j = id <;> simp [upd, e]
+      · rw [hl']; simp [upd]
+      · intro _; rw [set_value_iterate hi id v hm.1, hm.2]
+      · intro hne; exact absurd rfl hne
+    · simp only [hkind, if_false]
+      refine ⟨by first | trivial | rfl, by first | trivial | rfl, hl, ⟨_, hl⟩, ?_, ?_⟩
+      · intro e; first | exact absurd e hkind | cases e
+      · intro _; first | trivial | rfl
+
+/-! ### `hash(const String&)` -/
+
+/-- the three indices read by `hash(const String&)` lie within the `len + 1` bytes (text + terminator) of the string -/
+theorem hash_string_in_bounds (len : Nat) : ∀ i ∈ hashStringReads len, i < len + 1 := by
+  intro i hi
+  simp only [hashStringReads, List.mem_cons, List.not_mem_nil, or_false] at hi
+  rcases hi with e | e | e
+  · omega
+  · have := Nat.div_le_self len 2; omega
+  · split at e <;> omega
+
+/-- hence the modelled hash function never faults on a string buffer of `len + 1` bytes -/
+theorem hash_string_total (s : List Nat) (len : Nat) (hs : s.length = len + 1) : (hashString s len).isSome = true := by
+  have h0 : 0 < s.length := by omega
+  have h1 : len / 2 < s.length := by have := Nat.div_le_self len 2; omega
+  have h2 : len - (if len ≠ 0 then 1 else 0) < s.length := by split <;> omega
+  simp only [hashString, List.getElem?_eq_getElem h0, List.getElem?_eq_getElem h1, List.getElem?_eq_getElem h2]
+  rfl
+
+/-! ### non-vacuity: the hypotheses are met by non-trivial states, the runs are not all rejected -/
+
+/-- three keys in ONE bucket of a capacity-1 HashMap, removal from the middle of the chain, reinsertion (recycled item),
+    update of an existing key, swap with a non-empty table and `==`: accepted, and with the expected results -/
+example :
+    (run Kind.map (fun _ => 7) init
+      [.construct false 1, .append false 5 50, .append false 6 60, .prepend false 4 40, .removeKey false 5,
+       .insert false 1 9 90, .append false 6 61, .find false 6, .swap false, .iterate true, .equal false true]).map
+      (fun r => r.2)
+    = some [.unit, .num 50, .num 60, .num 40, .unit, .num 1, .num 61, .onum (some 2), .unit,
+            .entries [(4, 40), (9, 90), (6, 61)], .flag false] := by
+  decide
+
+/-- a reachable state with a chain of length three meets `Inv` (so `find_correct`, `insert_existing_keeps_pos` are not vacuous) -/
+example : ∃ t : Table, t.Inv (fun _ => 7) ∧ (t.data 0).length = 3 ∧ 2 ∈ Spec.keys t.iterate := by
+  have hi := (((construct_inv (fun _ => 7) 1).insert Kind.set 0 1 0 (Nat.zero_le _)).1.insert Kind.set 0 2 0 (Nat.zero_le _)).1.insert
+    Kind.set 0 3 0 (Nat.zero_le _)
+  exact ⟨_, hi.1, by decide, by decide⟩
+
+example : hashStringReads 0 = [0, 0, 0] ∧ hashStringReads 5 = [0, 2, 4] := by decide
+
 end Nstd.Hash
